@@ -125,6 +125,20 @@ class OSMRoadNetwork(RoadNetwork):
             self.graph = graph
             self.link_helper = link_helper
 
+            # scale factor of the A* heuristic: the smallest travel time per great-circle kilometer over all
+            # edges. since great-circle distance obeys the triangle inequality, scaling it by this factor never
+            # over-estimates the travel time of any path (an admissible, consistent heuristic), whatever the
+            # lengths and speeds of the links are. dividing by the minimum link speed, as before, over-estimates
+            # as soon as one link is faster than the slowest one and made the search return slower routes.
+            ratios = []
+            for u, v, d in graph.edges(data=True):
+                gc_km = H3Ops.great_circle_distance(graph.nodes[u]["geoid"], graph.nodes[v]["geoid"])
+                if gc_km > 0:
+                    ratios.append(d[TIME_WEIGHT] / gc_km)
+                elif d[TIME_WEIGHT] < 0:
+                    ratios.append(0.0)
+            self.heuristic_seconds_per_km: float = max(0.0, min(ratios)) if ratios else 0.0
+
     @classmethod
     def from_polygon(
         cls,
@@ -187,8 +201,7 @@ class OSMRoadNetwork(RoadNetwork):
             dist: Kilometers = H3Ops.great_circle_distance(
                 self.graph.nodes[source]["geoid"], self.graph.nodes[dest]["geoid"]
             )
-            time: Hours = dist / self.min_speed_kmph
-            return time * SECONDS_IN_HOUR
+            return dist * self.heuristic_seconds_per_km
 
         # start path search from the end of the origin link, terminate search at the start of the
         # destination link
